@@ -156,14 +156,17 @@ theorem C11_failure_causes (db : DB) :
   ⟨fun id who e he => report_err db id who e he, fun c hc hl hcl => lock_journal_closed db c hc hl hcl,
    fun hid hd => fireTimeout_pending db hid hd, fun _ _ => rfl⟩
 
-/-- **The value comes back** for SET (always), for any operation on a key that had no value cell yet, for INCR over a number cell and for
-APPEND over a well-formed value: what a reply shows after the undo is what it showed before the grant. -/
+/-- **The value comes back** for SET (always), for any operation on a key that had no value cell yet, for INCR over a number cell, for
+APPEND over a well-formed value, and for a PIPELINE (always; since c3f898d its undo is the cell saved before the pipeline — before, the
+failure exit panicked on the missing operand, `C13:ack-recover-panic`): what a reply shows after the undo is what it showed before the grant. -/
 theorem C11_value_restored :
     (∀ cur f, frameType f = 0 → roundTrip cur f = getData cur) ∧
     (∀ f, roundTrip none f = none) ∧
     (∀ n ctype f, n < 2 ^ 64 → ctype ≠ 1 → frameType f = 2 → 4 ≤ f.length → roundTrip (some (numberCell n ctype)) f = getData (some (numberCell n ctype))) ∧
-    (∀ p f, p.hasData = true → p.wf → frameType f = 3 → 6 ≤ f.length → roundTrip (some p) f = getData (some p)) :=
-  ⟨undo_set, undo_fresh, fun n ctype f hn hc h hl => undo_incr_number n ctype hn hc f h hl, fun p f hd hw h hl => undo_append p hd hw f h hl⟩
+    (∀ p f, p.hasData = true → p.wf → frameType f = 3 → 6 ≤ f.length → roundTrip (some p) f = getData (some p)) ∧
+    (∀ cur f, frameType f = 6 → pipeOk f = true → (∀ p, cur = some p → p.ctype = 1 → p = unsetCell) → roundTrip cur f = getData cur) :=
+  ⟨undo_set, undo_fresh, fun n ctype f hn hc h hl => undo_incr_number n ctype hn hc f h hl, fun p f hd hw h hl => undo_append p hd hw f h hl,
+   fun cur f h hf hw => undo_pipeline cur f h hf hw⟩
 
 /-- **…and where it does not.** INCR over a value that is not a number cell (here SET "abc"): the undo writes the number back, not the
 bytes. INCR / APPEND over a cell that exists but is UNSET (left behind by an earlier undo): "no value" becomes the number 0 / an empty
@@ -275,6 +278,13 @@ example : sig ⟨1, false⟩ goodRun = [[], [], [], [], [(1, 1, R_SUCCED)], [], 
 
 /-- the unlock-first theorem applies to `dbPending` -/
 example : findHolder dbPending 5 9 = none ∧ has unlockFirst.flag UF_FIRST = true ∧ (dbPending.holders 5).head? = some (dbPending.getR 1) := by decide
+
+/-- PIPELINE [SET "x", INCR 1] over the value "abc": a frame of the subset; the code applies every sub-operation to the cell as it was
+BEFORE the pipeline, so what it leaves is INCR 1 over "abc" (the SET is discarded); the undo puts "abc" back -/
+def pipeSetIncr : Bytes := [23, 0, 0, 0, 6, 0, 3, 0, 0, 0, 0, 0, 120, 10, 0, 0, 0, 2, 0, 1, 0, 0, 0, 0, 0, 0, 0]
+example : pipeOk pipeSetIncr = true ∧ frameType pipeSetIncr = 6 ∧
+    (applyFrame (some ⟨[5, 0, 0, 0, 0, 0, 97, 98, 99], 0⟩) pipeSetIncr).1.data = [10, 0, 0, 0, 0, 1, 98, 98, 99, 0, 0, 0, 0, 0] ∧
+    roundTrip (some ⟨[5, 0, 0, 0, 0, 0, 97, 98, 99], 0⟩) pipeSetIncr = some [5, 0, 0, 0, 0, 0, 97, 98, 99] := by decide
 
 /-- the failure theorem applies to `dbPending` (and the wake pass it starts serves a queued request) -/
 example : (ackDone dbPending 1 false).2.map (fun r => (r.conn, r.req, r.result)) = [(1, 1, R_ERROR)] ∧
